@@ -14,8 +14,22 @@ RULE = ("behaviours = all API call sequences of the stated depth over the GenTR 
 def run(chk):
     tc.model_check(chk, chk.tier == "quick", parts=("main",), small=True)
     tc.standard_plan(chk, "C01", "nt_C01", kinds_quick=("sort", "batchvisual"))
+    # R2: random free-world histories (moving, crossing, disappearing objects; lifecycle calls interleaved)
+    from checks import r2_common as r2
+    traces = []
+    for i in range(4 if chk.tier == "quick" else 120):
+        kind = ("sort", "visual", "batchsort", "batchvisual")[i % 4]
+        t = r2.record(chk, f"r2-{i}", kind, chk.seed * 1000 + 100 + i, steps=150 if chk.tier == "quick" else 400, shards=1 + i % 3,
+                      metric="iou" if i % 2 == 0 else "maha", max_idle=(0, 1, 2, 3)[i % 4], objects=3 + i % 2, spread=90,
+                      scenes="0,7,8" if i % 2 else "0,7")
+        chk.cov["evaluations"] += r2.trace_stats(t)["events"]
+        traces.append(t)
+    r2.validate_all(chk, traces, "C01")
     chk.finish(RULE, exhaustive=True)
 
 
 def replay(payload):
+    if payload.get("engine") == "r2-trace":
+        from checks import r2_common as r2
+        return r2.replay_trace("C01", payload)
     return tc.replay_payload("C01", payload)
